@@ -426,6 +426,12 @@ def _cases(rng, ctx):
             ms = rng.randrange(ndays) * MS_DAY
             n = rng.randint(-ndays, ndays)
         out.append({'kind': 'add', 'ms': ms, 'n': n})
+    # fractional day counts (eighths of a day: whole milliseconds) on either side of +, and to the right of -
+    for _ in range(60 * scale):
+        ms = rng.choice(pool) if rng.random() < 0.5 else rng.randrange(60, ndays - 400) * MS_DAY
+        out.append({'kind': 'add', 'ms': ms, 'n': rng.choice([1, -1]) * rng.randrange(1, 2400) / 8.0})
+    for n8 in (0.5, -0.5, 30.75, 0.125, 1.5, -2.25):
+        out.append({'kind': 'add', 'ms': (DT(2020, 1, 1) - D1900).days * MS_DAY, 'n': n8})
     for ms, n in ((MS_MAR1, 1), (MS_MAR1, 0), (MS_MAR1 + MS_DAY, -1), (MS_MAR1, -1), (0, 1), (MS_DAY, 1), (MS_MAR1 - MS_DAY, 1),
                   (MS_MAR1 - MS_DAY, 2), (MS_END - MS_DAY, 0), (MS_END - MS_DAY, 1), (MS_END - 2 * MS_DAY, 1),
                   ((DT(2020, 2, 28) - D1900).days * MS_DAY, 2), ((DT(2019, 2, 28) - D1900).days * MS_DAY, 1)):
@@ -612,7 +618,7 @@ def _impl(c):
         d = dt_of_ms(c['ms'])
         n = c['n']
         r = {'var': [run(f, x=d, n=n) for f in ('x+n', 'n+x', 'x-n')]}
-        if c['ms'] % MS_DAY == 0:
+        if c['ms'] % MS_DAY == 0 and isinstance(n, int):
             r['lit'] = [run(date_lit(d) + '+' + num_lit(n)), run(num_lit(n) + '+' + date_lit(d)), run(date_lit(d) + '-' + num_lit(n))]
         return r
     if k == 'sub':
@@ -898,17 +904,19 @@ def oracle(c, r):
     if k == 'add':
         ms, n = c['ms'], c['n']
         d = dt_of_ms(ms)
-        exact = ms % MS_DAY == 0
+        exact = ms % MS_DAY == 0 and isinstance(n, int)
         if ms < MS_MAR1:
             return None
-        forms = {'var': ('x+n', 'n+x', 'x-n'), 'lit': (date_lit(d) + '+' + num_lit(n), num_lit(n) + '+' + date_lit(d), date_lit(d) + '-' + num_lit(n))}
+        forms = {'var': ('x+n', 'n+x', 'x-n')}
+        if isinstance(n, int):
+            forms['lit'] = (date_lit(d) + '+' + num_lit(n), num_lit(n) + '+' + date_lit(d), date_lit(d) + '-' + num_lit(n))
         for name in ('var', 'lit'):
-            for f, rec, sign in zip(forms[name], r.get(name, []), (1, 1, -1)):
-                t = ms + sign * n * MS_DAY
+            for f, rec, sign in zip(forms.get(name, ()), r.get(name, []), (1, 1, -1)):
+                t = ms + int(sign * n * MS_DAY)          # (n is an integer or a number of eighths of a day)
                 if not (MS_MAR1 <= t < MS_END):
                     continue
                 if not date_is(rec, t, exact):
-                    return '%s with x=%s, n=%d gives %r; %d days %s is %s' % (
+                    return '%s with x=%s, n=%s gives %r; %s days %s is %s' % (
                         f, d, n, rec_value(rec), abs(n), 'later' if sign * n >= 0 else 'earlier', dt_of_ms(t))
         return None
     if k == 'sub':
